@@ -41,7 +41,7 @@ SPEC = dict(
         technique='Lean 4 proof (hand model) + differential correspondence with the library + source-regenerated layout decisions'),
     translators=[('transaction.py MessageAny.serialize inline/reference decisions->Generated/MsgLayout.lean', arith2.regenerator('MsgLayout')),
                  ('transaction.py / account.py / block.py whole message serialize / deserialize methods->Generated/MsgSrc.lean', msgsrc.regenerate)],
-    lean_targets=['TonVerif.Proofs.SrcMsg'],
+    lean_targets=['TonVerif.Proofs.SrcMsg', 'TonVerif.Proofs.SrcMsgSer'],
     design_ref='DESIGN.md §6 C15',
     rule='boundary sweep: header kind (internal / ext-in / ext-out) x extra-currency dict (0/1/many entries) x state-init shape '
          '(absent, 0..3 refs, split_depth, tick-tock) x body bits {0, 1, each exact inline limit -1/0/+1, 1023} x body refs 0..4, plus '
